@@ -16,6 +16,7 @@ func init() {
 	register(&Spec{
 		ID: "C07",
 		Explanation: "Decides: R1 no unsynchronised package-level mutable state — every package-level variable of the library packages is either written only during package initialisation, or safe for concurrent use by construction (*sync.Pool), or a pure memo whose every access is under one package-level mutex in the right mode; R2 package-level slices/maps are not handed out without a copy; R3 pool discipline — the pool is used only by NewContext (Get) and Destroy (Put), the value is reset on every path out of NewContext, Reset covers every field of Context, no use of a context after its release and no escape of it in the ServeHTTP methods. " +
+			"R13 (= C16.R7) lists derived from a group's option slice are copies, not appends into its spare capacity. " +
 			"Not decided: races inside user handlers; scheduling-dependent behaviour that does not go through shared state.",
 		Assumptions: commonAssumptions,
 		Run: func(c *Ctx) {
@@ -34,6 +35,7 @@ func init() {
 			ruleConstructorsOwnTheirLists(c, "R10")
 			ruleEntryConditionBelongsToTheGroup(c, "R11")
 			ruleCallersSlicesAreNotRetained(c, "R12", "")
+			ruleAppendDoesNotAlias(c, "R13", "mux.(*Group).New", "mux.NewGroup", "mux.NewRouter")
 		},
 	})
 }
@@ -666,6 +668,31 @@ func rulePool(c *Ctx, rule string) {
 						changed = true
 					}
 				}
+				// a closure (a deferred recovery function) that releases a captured variable: when the variable is a
+				// parameter of the enclosing function, that function may release its parameter
+				if parent := f.Parent(); parent != nil {
+					for fi, fv := range f.FreeVars {
+						if an.AP(fv) != an.AP(v) && ssa.Value(fv) != v {
+							continue
+						}
+						an.AllInstrs(parent, func(pin ssa.Instruction) {
+							mc, ok := pin.(*ssa.MakeClosure)
+							if !ok || mc.Fn != ssa.Value(f) || fi >= len(mc.Bindings) {
+								return
+							}
+							for pi, par := range parent.Params {
+								b := mc.Bindings[fi]
+								if (b == ssa.Value(par) || an.AP(b) == an.AP(par)) && !releases[parent][pi] {
+									if releases[parent] == nil {
+										releases[parent] = map[int]bool{}
+									}
+									releases[parent][pi] = true
+									changed = true
+								}
+							}
+						})
+					}
+				}
 			})
 		}
 	}
@@ -699,9 +726,28 @@ func rulePool(c *Ctx, rule string) {
 			if twice != nil {
 				o2.Path = c.P.PathString(twice)
 			}
+			// a deferred call on the context (defer ctx.Reset()) runs at the exit — after the release
+			deferredUse := false
+			an.AllInstrs(f, func(d ssa.Instruction) {
+				df, isDefer := d.(*ssa.Defer)
+				if !isDefer || d == in {
+					return
+				}
+				if _, isRel := releaseEventAny(d); isRel {
+					return
+				}
+				for _, arg := range df.Call.Args {
+					if arg == v || (isPtrToNamed(arg.Type(), a.ContextT) && an.AP(arg) == vap) {
+						deferredUse = true
+					}
+				}
+			})
 			path := (&an.Query{Target: func(t ssa.Instruction) bool {
 				if t == in {
 					return false
+				}
+				if _, isRD := t.(*ssa.RunDefers); isRD && deferredUse {
+					return true
 				}
 				if _, isRet := t.(*ssa.Return); isRet {
 					return false
